@@ -63,8 +63,8 @@ import (
 	metav1 "k8s.io/apimachinery/pkg/apis/meta/v1"
 	"k8s.io/apimachinery/pkg/runtime"
 	"k8s.io/apimachinery/pkg/runtime/schema"
-	"k8s.io/apimachinery/pkg/types"
 	"k8s.io/apimachinery/pkg/runtime/serializer"
+	"k8s.io/apimachinery/pkg/types"
 	k8stesting "k8s.io/client-go/testing"
 	"k8s.io/client-go/tools/events"
 	"k8s.io/klog/v2"
@@ -342,17 +342,17 @@ func (s c17Step) String() string {
 }
 
 type c17World struct {
-	c      *kit.Case
-	cfg    *c17Cfg
-	ctx    context.Context
+	c       *kit.Case
+	cfg     *c17Cfg
+	ctx     context.Context
 	store   client.WithWatch // the API store, without faults (environment + oracle access)
 	tracker k8stesting.ObjectTracker
 	faulty  client.WithWatch // what the controller gets: store behind the write-failing interceptor
-	clk    *fakeclock.FakeClock
-	rec    *Reconciler
-	recGen int
-	jobs   []*c17Job
-	podGen map[string]int
+	clk     *fakeclock.FakeClock
+	rec     *Reconciler
+	recGen  int
+	jobs    []*c17Job
+	podGen  map[string]int
 
 	faultAt         int
 	faultKind       c17Fault
@@ -1099,7 +1099,9 @@ func (w *c17World) gen(r *kit.Rand) c17Step {
 		w int
 	}
 	var cs []cand
-	add := func(weight int, kind, arg string) { cs = append(cs, cand{c17Step{Kind: kind, Job: ji, Arg: arg}, weight}) }
+	add := func(weight int, kind, arg string) {
+		cs = append(cs, cand{c17Step{Kind: kind, Job: ji, Arg: arg}, weight})
+	}
 	add(60, "reconcile", "")
 	res := j.res
 	pod := w.storedPod(j)
